@@ -346,7 +346,9 @@ func run(c *fw.Ctx) error {
 	c.Extra["platforms"] = "all platforms named by the binding files, both tiers"
 	c.Extra["inexact_constants"] = inexactNames
 	fmt.Printf("facts: %d entries, %d wrapper methods, %d units, %d shards; extract %.1fs, TLC wall %.1fs (sum %.1fs)\n", nE, nM, len(fs), len(names), tExtract.Seconds(), tTLC.Seconds(), tlcSum.Seconds())
-	if (c.Replay == "" && !c.Quick()) || (rc != nil && rc.Invariant == "RunTime") {
+	// the run-time cross-check: complete in the thorough tier, the packages the interpreter
+	// itself patches or that every script uses (fmt, os, log, flag, ...) in the quick tier
+	if c.Replay == "" || (rc != nil && rc.Invariant == "RunTime") {
 		if err := runtimeCross(c, fs, rc); err != nil {
 			return err
 		}
